@@ -45,29 +45,39 @@ demos = [(sname, dest + sname if dest.endswith("/") else dest) for sname in srcs
 run_cmd = run.group(1).strip().rstrip("`")
 run_cmd = re.split(r"\s+2>&1|\s+\||;|\s+#", run_cmd)[0].strip()
 demo_src, demo_dst = demos[0]
-sh("git checkout -- . && git clean -fdq -e .mutant", cwd=wt)
-rc, o = sh("git apply %s" % patch, cwd=wt)
-assert rc == 0, "patch does not apply in worktree: " + o
-rc1, o1 = sh("go build ./... && go build -tags verif ./...", cwd=wt)
-rc2, o2 = sh("go test -vet=off -count=1 ./cache ./server ./location ./compress ./util ./app && go test -vet=off -count=1 -skip TestEtcdClient ./config", cwd=wt)
-meta["builds"] = rc1 == 0
-meta["existing_tests_pass"] = rc2 == 0
-for a, b in demos:
-    shutil.copy(os.path.join(mdir, a), os.path.join(wt, b))
-rc3, o3 = sh(run_cmd, cwd=wt, timeout=600)
-meta["demo_with_change"] = "FAIL" if rc3 != 0 else "pass"
-sh("git checkout -- .", cwd=wt)
-rc4, o4 = sh(run_cmd, cwd=wt, timeout=600)
-meta["demo_without_change"] = "pass" if rc4 == 0 else "FAIL"
-for a, b in demos:
-    os.remove(os.path.join(wt, b))
-meta["demo_cmd"] = "cp .mutant/%s %s && %s" % (demo_src, demo_dst, run_cmd)
-meta["demo_output_with_change_tail"] = o3[-800:]
-ok = meta["builds"] and meta["existing_tests_pass"] and rc3 != 0 and rc4 == 0
-meta["confirmed"] = ok
-print("confirmed=%s builds=%s tests=%s demo_with=%s demo_without=%s" % (ok, meta["builds"], meta["existing_tests_pass"], meta["demo_with_change"], meta["demo_without_change"]))
-if not meta["existing_tests_pass"]:
-    print(o2[-1500:])
+outdir0 = "/verif/seeded/%s-%s%s" % (prop, (tag + "-") if tag else "", n)
+prev = None
+if os.environ.get("SKIP_CONFIRM") and os.path.exists(os.path.join(outdir0, "meta.json")):
+    prev = json.load(open(os.path.join(outdir0, "meta.json")))
+if prev and prev.get("confirmed"):
+    # confirmed in an earlier run of this script (kept in meta.json): only the checks are run again
+    for k in ("builds", "existing_tests_pass", "demo_with_change", "demo_without_change", "demo_cmd", "demo_output_with_change_tail", "confirmed"):
+        meta[k] = prev.get(k)
+    print("confirmed=True (from the earlier evaluation)")
+else:
+    sh("git checkout -- . && git clean -fdq -e .mutant", cwd=wt)
+    rc, o = sh("git apply %s" % patch, cwd=wt)
+    assert rc == 0, "patch does not apply in worktree: " + o
+    rc1, o1 = sh("go build ./... && go build -tags verif ./...", cwd=wt)
+    rc2, o2 = sh("go test -vet=off -count=1 ./cache ./server ./location ./compress ./util ./app && go test -vet=off -count=1 -skip TestEtcdClient ./config", cwd=wt)
+    meta["builds"] = rc1 == 0
+    meta["existing_tests_pass"] = rc2 == 0
+    for a, b in demos:
+        shutil.copy(os.path.join(mdir, a), os.path.join(wt, b))
+    rc3, o3 = sh(run_cmd, cwd=wt, timeout=600)
+    meta["demo_with_change"] = "FAIL" if rc3 != 0 else "pass"
+    sh("git checkout -- .", cwd=wt)
+    rc4, o4 = sh(run_cmd, cwd=wt, timeout=600)
+    meta["demo_without_change"] = "pass" if rc4 == 0 else "FAIL"
+    for a, b in demos:
+        os.remove(os.path.join(wt, b))
+    meta["demo_cmd"] = "cp .mutant/%s %s && %s" % (demo_src, demo_dst, run_cmd)
+    meta["demo_output_with_change_tail"] = o3[-800:]
+    ok = meta["builds"] and meta["existing_tests_pass"] and rc3 != 0 and rc4 == 0
+    meta["confirmed"] = ok
+    print("confirmed=%s builds=%s tests=%s demo_with=%s demo_without=%s" % (ok, meta["builds"], meta["existing_tests_pass"], meta["demo_with_change"], meta["demo_without_change"]))
+    if not meta["existing_tests_pass"]:
+        print(o2[-1500:])
 # run the checks against /repo with the change applied
 results = {}
 rc, o = sh("git -C /repo status --short | grep -v '^??' | head -3")
